@@ -978,7 +978,9 @@ class SVG:
             return svg
 
         for shape in self.shapes():
-            if isinstance(shape, SVGPath):
+            # a paint server in objectBoundingBox units refers to the bounding box of
+            # the whole path, to which subpaths without area contribute as well
+            if isinstance(shape, SVGPath) and not shape.fill.startswith("url("):
                 shape.remove_empty_subpaths(inplace=True)
 
         return self
